@@ -16,6 +16,7 @@ type State struct {
 	heap  map[string]*Term // heap key -> array term (missing = materialised lazily)
 	alloc *Term            // allocation counter (Int)
 	iters map[ssa.Value]*iterState
+	ghost map[string]*Term // ghost scalars (loglen)
 }
 
 type iterState struct {
@@ -36,6 +37,12 @@ func (s *State) clone() *State {
 	for k, v := range s.iters {
 		c := *v
 		n.iters[k] = &c
+	}
+	if s.ghost != nil {
+		n.ghost = map[string]*Term{}
+		for k, v := range s.ghost {
+			n.ghost[k] = v
+		}
 	}
 	return n
 }
@@ -101,6 +108,7 @@ type Unit struct {
 	globalVals   map[string]*SV
 	closures     map[*Term]*closureVal
 	needStrOrder bool
+	logsUsed     bool
 	entryEnv     *SpecEnv
 	args, fvs    []*SV
 	retState     *State
@@ -281,6 +289,9 @@ func (u *Unit) heapArr(st *State, s *Sort) *Term {
 
 // eventArr returns the array for key after event ev applied to prev (creating frame axioms once).
 func (u *Unit) eventArr(ev *havocEvent, key string, prev *Term) *Term {
+	if strings.HasPrefix(key, "G:") {
+		return prev // the API log is handled by logHavoc
+	}
 	k := fmt.Sprintf("%s|%d", key, prev.id)
 	if a, ok := ev.arrs[k]; ok {
 		return a
@@ -297,6 +308,9 @@ func (u *Unit) eventArr(ev *havocEvent, key string, prev *Term) *Term {
 	}
 	ks, _ := prev.Sort.arrayParts()
 	if ks != SRef {
+		return na
+	}
+	if strings.HasPrefix(key, "G:") {
 		return na
 	}
 	r := c.BoundVar("r", SRef)
@@ -434,6 +448,25 @@ func (u *Unit) mergeStates(edges []edge) (*Term, *State) {
 		}
 	}
 	st.alloc = al
+	anyGhost := false
+	for _, e := range edges {
+		if e.st.ghost != nil {
+			anyGhost = true
+		}
+	}
+	if anyGhost {
+		st.ghost = map[string]*Term{}
+		var gl *Term
+		for i := len(edges) - 1; i >= 0; i-- {
+			l := u.logLen(edges[i].st)
+			if gl == nil {
+				gl = l
+			} else {
+				gl = c.Ite(edges[i].guard, l, gl)
+			}
+		}
+		st.ghost["loglen"] = gl
+	}
 	for i := len(edges) - 1; i >= 0; i-- {
 		for k, it := range edges[i].st.iters {
 			if cur, ok := st.iters[k]; ok {
